@@ -189,6 +189,72 @@ fn zobrist(tier: usize, seed: u64, out: &mut Out) {
             }
         }
     });
+    // second pass (added after seeded change C07-d): positions of ALL sources (synthetic ones hold rights and an en-passant
+    // square at once, which playouts rarely do); every special move - castling, en passant, promotion, corner capture,
+    // rook/king move with rights - and, when an en-passant square is set, every legal move (each must drop the file key)
+    all_sources(ZOB_SPECIAL[tier], seed ^ 0x5a5a, out, &mut |out, v, rng| {
+        let b = v.board;
+        let legal = catch(|| b.get_legal_moves()).unwrap_or_default();
+        let ep_set = catch(|| b.get_en_passant().is_some()).unwrap_or(false);
+        let mut n = 0;
+        let mut order: Vec<BoardMove> = legal.clone();
+        rng.shuffle(&mut order);
+        for m in order.iter() {
+            let c = crate::gen::classify(b, m);
+            let special = c.ep || c.castle || c.promo || c.corner_capture || c.rights_move;
+            if special || (ep_set && n < 12) {
+                n += 1;
+                emit_mv(out, b, m, if special { "special" } else { "ep_set" });
+            }
+            if n >= 24 { break; }
+        }
+    });
+}
+
+/// Independent of the library: is square `t` attacked by a man of colour `by` on the placement `cells`?  Plain coordinate
+/// geometry (used ONLY to select successors worth a `q` line; verdicts come from the model / specification).
+pub fn indep_attacked(cells: &[Option<Piece>; 64], t: usize, by: Color) -> bool {
+    let (tr, tf) = ((t / 8) as i32, (t % 8) as i32);
+    let at = |r: i32, f: i32| -> Option<usize> { if (0..8).contains(&r) && (0..8).contains(&f) { Some((r * 8 + f) as usize) } else { None } };
+    let is = |s: Option<usize>, ty: PieceType| -> bool { s.map_or(false, |s| cells[s] == Some(Piece(ty, by))) };
+    for (dr, df) in [(1,2),(2,1),(-1,2),(-2,1),(1,-2),(2,-1),(-1,-2),(-2,-1)] { if is(at(tr + dr, tf + df), PieceType::Knight) { return true; } }
+    for dr in -1..=1 { for df in -1..=1 { if (dr, df) != (0, 0) && is(at(tr + dr, tf + df), PieceType::King) { return true; } } }
+    // a pawn of colour `by` attacks diagonally forward: it stands one rank behind `t` from its own point of view
+    let pr = if by == Color::White { tr - 1 } else { tr + 1 };
+    if is(at(pr, tf - 1), PieceType::Pawn) || is(at(pr, tf + 1), PieceType::Pawn) { return true; }
+    for (dr, df) in [(1,0),(-1,0),(0,1),(0,-1),(1,1),(1,-1),(-1,1),(-1,-1)] {
+        let orth = dr == 0 || df == 0;
+        let mut i = 1;
+        while let Some(s) = at(tr + dr * i, tf + df * i) {
+            if let Some(p) = cells[s] {
+                if p.1 == by && (p.0 == PieceType::Queen || (orth && p.0 == PieceType::Rook) || (!orth && p.0 == PieceType::Bishop)) { return true; }
+                break;
+            }
+            i += 1;
+        }
+    }
+    false
+}
+
+/// Successors (of moves the implementation lists as legal) in which the side that just moved is in check according to the
+/// independent detector: each gets a `q` line, so that C06's own observation sees it (at most 3 per position).
+fn screen_successors(out: &mut Out, b: &ChessBoard, legal: &[BoardMove]) {
+    let mover = match catch(|| b.get_side_to_move()) { Some(c) => c, None => return };
+    let mut n = 0;
+    for m in legal.iter() {
+        if n >= 3 { break; }
+        let nb = match catch(|| b.make_move(m).ok()).flatten() { Some(x) => x, None => continue };
+        let cells: Option<[Option<Piece>; 64]> = catch(|| { let mut c = [None; 64]; for i in 0..64 { c[i] = nb.get_piece_on(sq(i)); } c });
+        let cells = match cells { Some(c) => c, None => continue };
+        let k = (0..64).find(|&i| cells[i] == Some(Piece(PieceType::King, mover)));
+        let bad = match k { Some(k) => indep_attacked(&cells, k, if mover == Color::White { Color::Black } else { Color::White }), None => true };
+        out.stats.inc("legal.successors_screened");
+        if bad {
+            n += 1;
+            out.stats.inc("legal.successors_mover_in_check");
+            with_raw(out, &nb, |out, r| out.emit(&format!("q {r}"), &obs_q(&nb)));
+        }
+    }
 }
 
 fn legal(tier: usize, seed: u64, out: &mut Out) {
@@ -202,6 +268,7 @@ fn legal(tier: usize, seed: u64, out: &mut Out) {
         // successors of the SPECIAL legal moves (castling, en passant, promotions, corner captures): representation
         // invariant (C06), status and masks (C04/C05) of the board object make_move returns
         let legal = catch(|| b.get_legal_moves()).unwrap_or_default();
+        screen_successors(out, b, &legal);
         let mut n = 0;
         for m in legal.iter() {
             let c = crate::gen::classify(b, m);
